@@ -11,10 +11,12 @@ EXCLUDE = ["window.c"]          # #included by the harness so that the final dum
 LEVEL = "proof"      # evidence category; PARTIAL overall, see ASSUMPTIONS[0] and notes/C08.md
 CASE_TIMEOUT = 0.5
 RULE = ("case = one script line.  W: window-tree / restack-queue lifecycle script (new with every flag combination at "
-        "depth <= 3, ref/unref/close in any order, restack requests left pending, show/hide/focus, flush, key and "
-        "mouse events whose handlers run further calls); T: a copy-out call (get_cell_text / get_span / "
+        "depth <= 3, ref/unref/close in any order, restack requests left pending, show/hide/focus, flush, set_geometry, "
+        "reposition, a terminal resize, window pens and scrollrect with a pen, key and mouse events and EXPOSE / FOCUS / "
+        "GEOMCHANGE bindings (focus_child_notify included) whose handlers run further calls); T: a copy-out call (get_cell_text / get_span / "
         "mockterm get_display_text) into malloc(len) for every len from 0 to two beyond the text; O: lifecycle script "
-        "over pens, strings, render buffers, terminals (mock and xterm) and the toplevel instance; R: the pen stack of a render "
+        "over pens, strings, render buffers, terminals (mock and xterm; output buffer resized with output pending; KEY handlers "
+        "of terminals and CHANGE handlers of pens that drop references) and the toplevel instance; R: the pen stack of a render "
         "buffer (setpen NULL / empty / with attributes at every depth of save and savepen frames, restore, whole-line "
         "text and erase, clear, reset, flush to an xterm and to the mock terminal, drop; observation = live pens, strings "
         "and stack frames of the buffer after every call).  Every case runs in "
@@ -26,13 +28,24 @@ RULE = ("case = one script line.  W: window-tree / restack-queue lifecycle scrip
         "distinct = (script kind, verdict, set of call kinds, #windows, handlers present / copy-out kind x fit class).")
 ASSUMPTIONS = [
     "PARTIAL by nature: memory safety of the C is a run-time fact observed by the sanitizers on the explored histories; "
-    "the theorems are about the heap-level ownership model of the repaired window.c: for event-free histories with the "
-    "predictive client discipline wf_client (the oracle of this check); for histories with key and mouse events (the whole "
-    "drag state machine, re-entrant handlers making any calls) with the discipline wf_trace of LifeSpecEv.v, which reads "
+    "the theorems are about the heap-level ownership model of the repaired window.c: for histories of calls that dispatch "
+    "nothing with the predictive client discipline wf_client (the oracle of this check); for histories with dispatch -- key "
+    "and mouse events (the whole drag state machine), flush with EXPOSE handlers, take_focus with FOCUS handlers, "
+    "set_geometry / reposition / terminal resize with GEOMCHANGE handlers, re-entrant handlers making any calls -- with "
+    "the discipline wf_trace of LifeSpecEv.v, which reads "
     "the library's frame references off the model's trace -- that wf_client accepts only traces wf_trace accepts is "
     "proved for traces without frames and tested by the oracle on every case; more fuel never changes a verdict "
     "(proved), an explicit fuel bound for event-free histories is not proved, with events none exists (proved)",
-    "all windows of a script have the same geometry (the pointer structure, not the geometry, is explored)",
+    "all windows of a script have their top-left corner at their parent's, are 8 columns wide and 3 or 4 lines high (the "
+    "root: 3 or more): the pointer structure, not the geometry, is explored; the damage of the root is then always one "
+    "rectangle that meets every window, so that one flush runs _do_expose over the whole visible tree once (scrollrect "
+    "scrolls the two top lines at full width; reposition moves a window one line up while its GEOMCHANGE handlers run and "
+    "is used at top level and in key / mouse handlers only; after a terminal resize the harness exposes the whole root)",
+    "a handler of the kinds EXPOSE / FOCUS / GEOMCHANGE makes a call that dispatches its own kind again only after it has "
+    "unbound itself (the harness cuts a handler's nesting off at depth 6, the model has no such cut-off)",
+    "DESTROY handlers that make calls are NOT modelled (the model records the binding and never runs it): for scripts that "
+    "bind one (b<i>.d...., about 3 % of the W cases) the observation is not compared with the model's, the oracle -- the "
+    "extracted discipline on the trace of calls the harness reports -- judges them alone, and no theorem is about them",
     "a single root window per script; the harness holds the only client reference to the terminal",
     "R cases: text and erase calls cover a whole line, so that a line is a single span (span splitting, masks, clips "
     "and translation belong to C03/C04); pens / frames / strings of a buffer are counted as live blocks of their sizes",
@@ -46,6 +59,8 @@ TRUSTED = [
     "model coq/LifePenDefs.v hand-written after the pen / string reference counting of src/renderbuffer.c; "
     "coq/LifeBindDefs.v hand-written after src/bindings.c (heap twin of coq/BindDefs.v, not tested against the C separately)",
     "the harness harness/C08.c (+C08_objs.inc): script interpreter, fork per case, classification of sanitizer reports",
+    "ocaml/drv_C08.ml expand_O: the O model has no handlers; a handler H<i>.<j> (drops one reference to j at the owner's next "
+    "KEY / CHANGE event) is expanded into that unref after each library call that dispatches the event",
 ]
 
 FLAG_HIDDEN, FLAG_LOWEST, FLAG_ROOTPARENT, FLAG_STEAL = 1, 2, 4, 8
@@ -96,7 +111,7 @@ class Ghost:
     def step(self, op):
         """apply a top-level op token; returns False if it is ill-formed"""
         k = op[0]
-        if k in "-km":
+        if k in "-kmZ":
             return True
         if k == 'U':
             return self.usable(int(op[1:].split('.')[0]))
@@ -126,6 +141,8 @@ class Ghost:
             self.closed[i] = True
         elif k == 'f':
             return i == 0 and self.usable(0)
+        elif k in PAIR:
+            return self.usable(i) and self.usable(args[1])
         else:
             return self.usable(i)
         return True
@@ -135,31 +152,47 @@ class Ghost:
 
 
 RESTACK = "RLFB"
-SIMPLE = "shtxgy"
+SIMPLE = "shtxgyqzPp"     # calls on one usable window (q z P: set_pen with its own pen / NULL / a fresh pen; p: reposition)
+PAIR = "Qo"                # calls on two usable windows (set_pen with the other window's pen; scrollrect with it)
 
 
-def gen_wf_script(rnd, maxops, events, release):
+def gen_wf_script(rnd, maxops, events, release, efg=False):
     """a script that is well-formed as far as its top-level calls go; handler bodies are drawn
     from calls that are plausible for the moment they were bound"""
     g = Ghost()
     toks = []
     nwin = 1
+    armed = False      # an EXPOSE / FOCUS / GEOMCHANGE handler is bound: flush, take_focus and set_geometry dispatch
+    dbound = False     # a DESTROY handler is bound: the last unref of a window dispatches
 
     def pick(pred):
         c = [i for i in range(nwin) if pred(i)]
         return rnd.choice(c) if c else None
 
-    def action_for(i):
+    def action_for(i, kind="k"):
         """a short handler body about window i or its neighbours"""
         others = [j for j in range(1, nwin) if g.held(j)]
         j = rnd.choice(others) if others else i
         serial = sum(1 for t in toks if t[0] == 'b')      # the number this handler will get
+        if kind in "efg":
+            # a handler of a kind that the calls below dispatch themselves: it may only make such a call after it has
+            # unbound itself (else the nesting would not end: the harness cuts it off at depth 6, the model does not)
+            if rnd.random() < 0.35:
+                return "U%d.%d,%s" % (i, serial, rnd.choice([
+                    "y%d" % i, "t%d" % i, "x%d,f0" % i, "f0", "t%d" % j, "y%d" % j, "c%d,u%d,f0" % (i, i), "x0,f0,u%d" % j,
+                    "t%d,c%d,u%d" % (j, j, j), "c%d,u%d" % (i, i), "-"]))
+            return rnd.choice([
+                "c%d,u%d" % (i, i), "u%d" % i, "c%d,u%d" % (j, j), "u%d" % j, "c%d" % j, "c%d" % i, "r%d" % j, "R%d" % j, "h%d" % j,
+                "L%d,c%d,u%d" % (j, j, j), "n%d.0" % j, "n%d.0" % i, "x%d" % j, "u0", "c%d,u%d,u0" % (i, i), "s%d" % j, "-",
+                "q%d" % i, "z%d,P%d" % (j, j), "N%d.1" % j,
+            ])
         if rnd.random() < 0.2:
             # unbind itself, then something that dispatches another event on the same window
             return "U%d.%d,%s" % (i, serial, rnd.choice(["y%d" % i, "t%d" % i, "y%d,t%d" % (i, i), "x%d" % i, "-"]))
         return rnd.choice([
             "c%d,u%d" % (i, i), "u%d" % i, "c%d,u%d" % (j, j), "u%d" % j, "c%d" % j, "r%d" % j, "R%d" % j, "h%d" % j,
             "L%d,c%d,u%d" % (j, j, j), "n%d.0" % j, "f0", "t%d" % j, "y%d" % j, "y%d" % i, "-", "-",
+            "q%d" % i, "Q%d.%d" % (i, j), "z%d,P%d" % (j, j), "o%d.%d" % (j, i), "p%d" % i, "p%d" % j,
         ])
 
     for _ in range(maxops):
@@ -184,20 +217,33 @@ def gen_wf_script(rnd, maxops, events, release):
         elif r < 0.78:
             i = pick(g.usable)
             if i is not None:
-                k = rnd.choice(SIMPLE + "S")
-                op = "S%d.%d" % (i, rnd.randint(0, 1)) if k == 'S' else k + str(i)
+                k = rnd.choice(SIMPLE + "S" + PAIR)
+                if k == 'S':
+                    op = "S%d.%d" % (i, rnd.randint(0, 1))
+                elif k in PAIR:
+                    op = "%s%d.%d" % (k, i, pick(g.usable))
+                else:
+                    op = k + str(i)
         elif r < 0.86:
             op = "f0" if g.usable(0) else None
         elif events and r < 0.93:
             i = pick(g.usable)
             if i is not None:
-                if rnd.random() < 0.5:
+                rk = rnd.random()
+                if efg and rk < 0.5:
+                    kind = rnd.choice("efgefgd")
+                    op = "b%d.%s.0.%d.%s" % (i, kind, rnd.randint(0, 1), action_for(i, "g" if kind == "d" else kind))
+                    armed = True
+                    dbound = dbound or kind == "d"
+                elif efg and rk < 0.6:
+                    op = "N%d.%d" % (i, rnd.randint(0, 1))
+                elif rnd.random() < 0.5:
                     op = "b%d.k.0.%d.%s" % (i, rnd.randint(0, 1), action_for(i))
                 else:
                     mask = rnd.choice([0xff, 0x01, 0x02, 0x04, 0x10, 0x20, 0x40, 0x80, 0x12])
                     op = "b%d.m.%x.%d.%s" % (i, mask, rnd.randint(0, 1), action_for(i))
         elif events:
-            op = rnd.choice(["k", "mp", "md", "md", "mr", "mw"])
+            op = rnd.choice(["k", "mp", "md", "md", "mr", "mw"] + (["Z"] if efg else []))
         if op is None:
             continue
         if not g.step(op):
@@ -205,10 +251,10 @@ def gen_wf_script(rnd, maxops, events, release):
         if op[0] == 'n':
             nwin += 1
         toks.append(op)
-        if op[0] in "km":
+        if op[0] in "kmZ" or (armed and op[0] in "tyfp") or (dbound and op[0] in "uc"):
             # the ghost of the generator does not follow handlers: stop relying on it
             break
-    if release and not any(t[0] in "km" for t in toks):
+    if release and not armed and not any(t[0] in "kmZ" for t in toks):
         order = [i for i in range(nwin)]
         rnd.shuffle(order)
         progress = True
@@ -292,9 +338,102 @@ def gen_W(tier, seed, info):
                 for mask, evs in (("80", ["mp", "md", "mr"]), ("20", ["mp", "md", "md"]), ("a0", ["mp", "md", "md", "mr"])):
                     stats["exhaustive"] += 1
                     yield "W " + " ".join(pre + keep + ["b%d.m.10.1.-" % d, "b%d.m.%s.0.%s" % (d, mask, body)] + evs + ["f0"])
+    # window pens: every sequence of <= 3 pen calls over two windows (own pen, the other's pen, NULL, fresh, scroll
+    # with a pen), then the windows go in either order
+    pen_alpha = ["q1", "q2", "Q1.2", "Q2.1", "z1", "P1", "P2", "o1.2", "o2.2", "q0", "Q1.0"]
+    for n in range(1, 4 if tier == "quick" else 5):
+        for seq in itertools.product(pen_alpha, repeat=n):
+            for tear in (["u1", "u2", "f0"], ["u2", "u1", "u0"]):
+                stats["exhaustive"] += 1
+                yield "W n0.0 n0.0 " + " ".join(list(seq) + tear)
+    # EXPOSE / FOCUS / GEOMCHANGE handlers: tree root > 1 > 2, root > 3; a handler on any window releases, closes or
+    # closes+releases any window (its own included), with and without an extra client reference on the target;
+    # expose: the whole tree is exposed and flushed; focus: the focus moves 2 -> 3 -> 1 (with and without
+    # focus_child_notify on the ancestors); geomchange: the window is resized
+    efg_pre = ["n0.0", "n1.0", "n0.0"]
+    for bound in range(4):
+        for target in range(4):
+            for body in ("c%d,u%d", "u%d", "c%d"):
+                if target == 0 and body == "c%d":
+                    continue
+                b = body.replace("%d", str(target))
+                for keep in ([], ["r%d" % target]):
+                    for once in (False, True):
+                        bb = ("U%d.0," % bound if once else "") + b
+                        for kind, runs in (("e", [["x0", "f0", "f0"], ["x%d" % bound, "f0", "x0", "f0"]]),
+                                           ("f", [["t2", "t3", "t1", "f0"], ["N0.1", "N1.1", "t2", "t3", "t1", "f0"],
+                                                  ["N0.1", "N1.1", "t%d" % target, "t0", "f0"]]),
+                                           ("g", [["y%d" % bound, "f0"], ["y%d" % bound, "y%d" % bound, "x0", "f0"]])):
+                            for run in runs:
+                                stats["exhaustive"] += 1
+                                yield "W " + " ".join(efg_pre + keep + ["b%d.%s.0.0.%s" % (bound, kind, bb)] + run)
+    # the focus is somewhere already when the handler is bound: the window that loses it (or an ancestor that is told)
+    # closes / releases the window that is taking it
+    for pre in (["t2"], ["t3"], ["N0.1", "N1.1", "t2"], ["N0.1", "t3"]):
+        for bound in range(4):
+            for target in range(4):
+                for body in ("c%d,u%d", "u%d", "c%d"):
+                    if target == 0 and body == "c%d":
+                        continue
+                    b = body.replace("%d", str(target))
+                    for run in (["t1", "f0"], ["t0", "f0"], ["t3", "t2", "f0"]):
+                        stats["exhaustive"] += 1
+                        yield "W " + " ".join(efg_pre + pre + ["b%d.f.0.0.%s" % (bound, b)] + run)
+    # two handlers of the same kind on one window, the first removes the window (or the second handler); nested
+    # dispatch from a handler that has unbound itself: flush inside expose, take_focus inside focus, resize inside geomchange
+    for kind, trig in (("e", ["x0", "f0"]), ("f", ["t1"]), ("g", ["y1"])):
+        for first in ("c1,u1", "u1", "U1.1", "U1.0", "c1"):
+            for second in ("u1", "c1,u1", "r1", "-"):
+                stats["exhaustive"] += 1
+                yield "W n0.0 b1.%s.0.0.%s b1.%s.0.0.%s %s f0 u0" % (kind, first, kind, second, " ".join(trig))
+        for nested in ("x1,f0", "x0,f0,c1,u1", "t1", "t0", "y1", "y1,c1,u1", "f0", "c1,u1,f0", "t1,c1,u1", "u0"):
+            for where in (0, 1):
+                stats["exhaustive"] += 1
+                yield "W n0.0 b%d.%s.0.0.U%d.0,%s %s f0 u0" % (where, kind, where, nested, " ".join(trig))
+    # a handler releases its own window and then ancestors of it, in every order (the ancestor's destruction must not
+    # consume the reference the dispatch holds on the window): every event kind, bound at depth 1 and 2
+    for kind, trig in (("e", "x0 f0"), ("f", "t%d"), ("g", "y%d"), ("g", "p%d"), ("g", "t%d p%d"), ("k", "t%d k"), ("m", "mp")):
+        for bound in (1, 2):
+            for n in (1, 2, 3):
+                for seq in itertools.permutations((0, 1, 2), n):
+                    for keep in ([], ["r1"], ["r2"]):
+                        stats["exhaustive"] += 1
+                        yield "W n0.0 n1.0 %s b%d.%s.%s.0.%s %s f0" % (
+                            " ".join(keep), bound, kind, "ff" if kind == "m" else "0", ",".join("u%d" % i for i in seq),
+                            trig.replace("%d", str(bound)))
+    # the terminal is resized: the root's geomchange handlers release / close the root or its children; then a flush
+    for body in ("u0", "c0,u0", "u1", "c1,u1", "u1,u0", "c1,u1,u0", "x0,f0", "-"):
+        for keep in ([], ["r0"]):
+            for where in (0, 1):
+                stats["exhaustive"] += 1
+                yield "W n0.0 %s b%d.g.0.0.%s Z f0 Z y0 f0" % (" ".join(keep), where, body)
+    # DESTROY handlers that make calls on OTHER windows (not modelled; judged by the oracle alone): the handler of a
+    # window that is being destroyed flushes, exposes, moves the focus, resizes, releases / closes its parent, the root or
+    # a sibling, creates a window -- while its own window is still in the tree with no reference left
+    for shape, dying, others in ((["n0.0"], 1, [0]), (["n0.0", "n0.0"], 1, [0, 2]), (["n0.0", "n1.0", "n0.0"], 2, [0, 1, 3]),
+                                 (["n0.0", "n1.0", "r2"], 1, [0, 2])):
+        d = dying
+        # ... and calls on the dying window itself (not traced: the handler is handed the window): events on it, its pen
+        bodies = ["f0", "x0,f0", "u0", "t0", "y0", "Z", "n0.0", "R%d" % dying, "-",
+                  "y%d" % d, "t%d" % d, "x%d,f0" % d, "p%d" % d, "q%d,z%d,P%d" % (d, d, d), "h%d,f0" % d, "t%d,y%d,x%d,f0,u0" % (d, d, d),
+                  "N%d.1,t%d" % (d, d), "y%d,y%d" % (d, d)]
+        for o in others:
+            if o != 0:
+                bodies += ["u%d" % o, "c%d,u%d" % (o, o), "t%d" % o, "y%d" % o, "p%d" % o, "x%d,f0" % o, "h%d,f0" % o, "n%d.0" % o]
+        for body in bodies:
+            for pre in ([], ["t%d" % dying], ["R%d" % dying], ["x0"]):
+                for how in (["u%d" % dying], ["c%d" % dying, "u%d" % dying]):
+                    stats["exhaustive"] += 1
+                    yield "W " + " ".join(shape + pre + ["b%d.d.0.0.%s" % (dying, body)] + how + ["f0"])
+    # the expose handlers release the root itself (flush goes on using it), at the root and below
+    for where in (0, 1, 2):
+        for body in ("u0", "c1,u1,u0", "u1,u0", "c0,u0", "u0,u1"):
+            for keep in ([], ["r0"]):
+                stats["exhaustive"] += 1
+                yield "W n0.0 n1.0 %s b%d.e.0.0.%s x0 f0 f0" % (" ".join(keep), where, body)
     info["exhaustive"] = True
     info["exhaustive_scope"] = ("W: 2 tree shapes (two siblings; parent+child) x every sequence of <= %d calls over %s; "
-                                "16 flag combinations x 3 depths x 6 teardown orders; 4 restack kinds x 2 targets in a 3-level chain x 10 teardown orders; self-unbinding handlers x 5 nested dispatches x 3 positions x 3 event kinds; leaf handlers destroying an ancestor (focus/steal x kept references x 7 bodies x key/mouse); drag sources whose DRAG_OUTSIDE/DRAG_STOP handlers release themselves and their ancestors (2 depths x 8-13 bodies x 3 kept references x 3 event sequences)" % (L, " ".join(alpha)))
+                                "16 flag combinations x 3 depths x 6 teardown orders; 4 restack kinds x 2 targets in a 3-level chain x 10 teardown orders; self-unbinding handlers x 5 nested dispatches x 3 positions x 3 event kinds; leaf handlers destroying an ancestor (focus/steal x kept references x 7 bodies x key/mouse); drag sources whose DRAG_OUTSIDE/DRAG_STOP handlers release themselves and their ancestors (2 depths x 8-13 bodies x 3 kept references x 3 event sequences); window pens: every sequence of <= 3 pen calls over two windows x 2 teardowns; EXPOSE/FOCUS/GEOMCHANGE handlers on each of 4 windows (root > 1 > 2, root > 3) releasing / closing / closing+releasing each of the 4 windows, with and without an extra reference, self-unbinding or not, x 2-3 trigger sequences per kind; the focus already held when the handler is bound (4 prefixes x 4 x 4 x 3 bodies x 3 runs); two handlers of one kind on a window; nested dispatch from a self-unbound handler (10 bodies x 2 places x 3 kinds); handlers releasing their own window and its ancestors in every order (7 kind/trigger pairs x 2 depths x 15 orders x 3 kept references); terminal resize with root geomchange handlers (8 bodies x 2 x 2); expose handlers releasing the root during flush (3 places x 5 bodies x 2)" % (L, " ".join(alpha)))
     # --- random well-formed lifecycles, without and with events
     n_wf = 2500 if tier == "quick" else 60000
     for _ in range(n_wf):
@@ -303,9 +442,13 @@ def gen_W(tier, seed, info):
     n_ev = 3500 if tier == "quick" else 120000
     for _ in range(n_ev):
         stats["event_random"] += 1
-        toks = gen_wf_script(rnd, rnd.randint(4, 14), True, False)
+        efg = rnd.random() < 0.5
+        toks = gen_wf_script(rnd, rnd.randint(4, 14), True, False, efg)
         # after the first event the generator no longer knows the state: add a few more events and a flush
-        toks += [rnd.choice(["k", "mp", "md", "mr", "mw", "f0"]) for _ in range(rnd.randint(0, 4))]
+        nw = 1 + sum(1 for t in toks if t[0] == 'n')
+        more = ["k", "mp", "md", "mr", "mw", "f0"] + (["x0", "f0", "Z", "t%d" % rnd.randrange(nw), "y%d" % rnd.randrange(nw),
+                                                       "p%d" % rnd.randrange(nw), "u%d" % rnd.randrange(nw)] if efg else [])
+        toks += [rnd.choice(more) for _ in range(rnd.randint(0, 4))]
         yield "W " + " ".join(toks)
     # --- malformed stream: a well-formed prefix followed by calls the client has no right to make
     n_bad = 600 if tier == "quick" else 20000
@@ -411,13 +554,39 @@ def gen_O(tier, seed, info):
         "O T+m K+0 R1 u1", "O T+m r0 K+0 R1 u1 w0.6162 u0", "O T+m d0 Z0 k0 u0",
         "O T+x w0.6162 G0 F0 P+ a1.1 p0.1 h0.1 u1 u0", "O T+x P+ a1.3 p0.1 u1 u0", "O T+x P+ a1.3 h0.1 u1 u0",
         "O T+x r0 K+0 R1 u1 u0",
+        "O T+n", "O T+n T+n P+ u0", "O T+n T+m u0",
+        # the output buffer is resized while output is pending: grown, shrunk below what is pending, dropped
+        "O T+x o0.64 w0.616263 w0.646566 o0.4 w0.6162 F0 u0", "O T+x o0.64 w0.616263 o0.128 w0.6162 F0 o0.0 w0.61 u0",
+        "O T+x o0.16 w0.616263 G0 o0.2 G0 w0.e4b8ad F0 u0", "O T+x o0.8 o0.8 w0.61 o0.1 w0.6162 o0.0 F0 u0",
+        "O T+m o0.16 w0.6162 o0.2 w0.6162 F0 u0",
+        # a KEY handler of a terminal / a CHANGE handler of a pen drops a reference - the last one - to its own object
+        "O T+m H0.0 k0", "O T+x H0.0 k0", "O T+m r0 H0.0 k0 u0", "O T+m H0.0 i0.41", "O T+x H0.0 i0.4142", "O T+m H0.0 H0.0 r0 k0",
+        "O T+x K+0 H0.1 k0 u0", "O T+x K+0 H0.0 k0 u1", "O T+m P+ H0.1 k0 u0", "O T+m T+m H0.1 H1.0 k0 k1",
+        "O P+ H0.0 a0.0", "O P+ H0.0 a0.2", "O P+ r0 H0.0 a0.1 u0", "O P+ r0 H0.0 a0.3 u0", "O P+ P+ H0.1 H1.0 a0.0",
+        "O P+ B+ p1.0 H0.0 a0.0 t1.616263 u1", "O P+ T+x H0.0 p1.0 a0.0 w1.6162 u1",
+        # a binding that is notified of its object's destruction still uses the dying object (emits a key and resizes the
+        # terminal, changes the pen): the dispatch's reference pair must not destroy it a second time
+        "O T+m D0.0 u0", "O T+x D0.0 u0", "O T+m D0.1 u0", "O T+x D0.1 u0", "O T+m D0.0 D0.1 H0.0 k0", "O T+x r0 K+0 D0.0 u1",
+        "O T+m D0.1 D0.0 r0 u0 k0 u0", "O P+ D0.0 u0", "O P+ D0.1 u0", "O P+ D0.1 H0.0 a0.0", "O P+ D0.0 D0.1 r0 a0.1 u0 u0",
+        "O P+ B+ D0.0 p1.0 u0 t1.616263 u1", "O P+ T+x D0.1 p1.0 u0 w1.6162 u1",
     ]
+    for sizes in itertools.product((0, 1, 3, 16, 64), repeat=3):
+        fixed.append("O T+x o0.%d w0.616263 G0 o0.%d w0.e4b8ad61 P+ a1.1 p0.1 o0.%d w0.6162 F0 u1 u0" % sizes)
     for c in fixed:
         yield c
     made = len(fixed)
     for _ in range(n):
         objs = []      # (kind, held)
         toks = []
+        hooks = []     # [owner, target, armed]: H handlers (fire on the owner's next KEY / CHANGE event)
+        dying_bound = set()   # objects with a D binding
+
+        def fire(owner):
+            for h in hooks:
+                if h[0] == owner and h[2]:
+                    h[2] = False
+                    objs[h[1]][1] -= 1
+
         for _ in range(rnd.randint(3, 16)):
             live = [i for i, (k, h) in enumerate(objs) if h > 0]
             r = rnd.random()
@@ -442,12 +611,22 @@ def gen_O(tier, seed, info):
                 toks.append("r%d" % i); objs[i][1] += 1
             elif r < 0.5:
                 toks.append("u%d" % i); objs[i][1] -= 1
+            elif r < 0.56 and k in "PT":
+                if i not in dying_bound:
+                    j = rnd.choice(live)
+                    toks.append("H%d.%d" % (i, j)); hooks.append([i, j, True])
+            elif r < 0.59 and k in "PT":
+                # (not on an object that has an H handler: the dying object's own events would fire it, at a moment the
+                #  driver's expansion of H handlers does not know)
+                if not any(h[0] == i for h in hooks):
+                    toks.append("D%d.%d" % (i, rnd.randint(0, 1))); dying_bound.add(i)
             elif k == 'P':
                 c = rnd.choice("adeyc")
                 if c == 'a':
-                    toks.append("a%d.%d" % (i, rnd.randint(0, 2)))
+                    toks.append("a%d.%d" % (i, rnd.randint(0, 2))); fire(i)
                 elif c == 'y':
-                    toks.append("y%d.%d" % (i, rnd.choice(pens)))
+                    if not any(h[0] == i for h in hooks):      # whether a copy changes anything depends on the attributes
+                        toks.append("y%d.%d" % (i, rnd.choice(pens)))
                 elif c == 'c':
                     toks.append("Pc%d" % i); objs.append(['P', 1])
                 else:
@@ -474,12 +653,18 @@ def gen_O(tier, seed, info):
                 else:
                     toks.append("%s%d" % (c, i))
             elif k == 'T':
-                c = rnd.choice("wFGZkdph")
+                c = rnd.choice("wFGZkkdphooi")
                 if c == 'w':
                     toks.append("w%d.%s" % (i, rnd.choice(["6162", "c3a9", "e4b8ad"])))
                 elif c in "ph":
                     if pens:
                         toks.append("%s%d.%d" % (c, i, rnd.choice(pens)))
+                elif c == 'o':
+                    toks.append("o%d.%d" % (i, rnd.choice([0, 1, 2, 5, 16, 64, 256])))
+                elif c == 'i':
+                    toks.append("i%d.%s" % (i, rnd.choice(["41", "4142", "61"]))); fire(i)
+                elif c == 'k':
+                    toks.append("k%d" % i); fire(i)
                 else:
                     toks.append("%s%d" % (c, i))
         if rnd.random() < 0.85:
@@ -526,8 +711,16 @@ def gen(tier, seed, info):
 
 
 # ---------------------------------------------------------------------------------------
+def has_destroy_handler(case):
+    return case.startswith("W ") and any(t[0] == 'b' and t.split('.')[1:2] == ['d'] for t in case.split()[1:])
+
+
 def canon(case, obs):
-    """details after '#' (sanitizer kind, file, function, LSan's own verdict) are for the reader only"""
+    """details after '#' (sanitizer kind, file, function, LSan's own verdict) are for the reader only.
+    The model does not run DESTROY handlers: for scripts that bind one the observation is not compared with the
+    model's; the oracle (the discipline on the trace the harness reports) judges them on its own."""
+    if has_destroy_handler(case):
+        return "(DESTROY handler: not modelled)"
     i = obs.find(" #")
     return obs[:i] if i >= 0 else obs
 
